@@ -5,6 +5,7 @@ From AGH Require Export Base.Run Base.NetAddr Base.RuleEngine Model.Pipeline Mod
 From AGH Require Model.Rewrites.
 From AGH Require Model.ClientIndex Model.Schedule.
 From AGH Require Export Model.PipelineClients.
+From AGH Require Export Model.PipelineSvcIds.
 From AGH Require Model.Protection Model.PipelineRefresh Model.Refresh Model.RuleListParser Model.FilterSwitch.
 Local Open Scope N_scope.
 
@@ -136,7 +137,14 @@ Inductive case :=
      [gfilter] is the global filtering switch, protection is on, nothing else
      is configured. *)
   | CHttp (gfilter : bool) (block : list rule) (tags : list bytes) (ops : list (ClientIndex.op * bool))
-          (probes : list (bytes * addr * (bytes * bool * list bytes) * list (bytes * N * bool))).
+          (probes : list (bytes * addr * (bytes * bool * list bytes) * list (bytes * N * bool)))
+  (* round 9 (C01): a history of calls of the two entry points of the global
+     list of blocked-service ids (deprecated set, validated update) on one
+     server; [tbl] is the table of the test services (the harness draws no
+     other known id); per call: whether the real handler accepted it and the
+     list GET /control/blocked_services/get showed afterwards. *)
+  | CSvcStore (tbl : list (bytes * list nrule)) (init : list bytes)
+              (calls : list (svc_entry * bool * list bytes)).
 
 (** A client's BlockedServices value in the registry cases: the ids and
     whether its pause schedule contains now (a full or an empty week). *)
@@ -420,8 +428,19 @@ Definition http_ok (cf : cfg) (block : list rule) (tags : list bytes) (ops : lis
                         handed_eqb (fst m) handed && eqb_list Bool.eqb (snd m) (map snd checks)
                     end) probes.
 
+(** Replays the calls; true when every acceptance and stored list agree. *)
+Fixpoint run_svc_store (tbl : list (bytes * list nrule)) (stored : list bytes)
+    (calls : list (svc_entry * bool * list bytes)) : bool :=
+  match calls with
+  | nil => true
+  | (e, acc, after) :: rest =>
+      let '(s', a) := svc_store tbl stored e in
+      Bool.eqb a acc && eqb_list eqb_bytes s' after && run_svc_store tbl s' rest
+  end.
+
 Definition model (c : case) : outcome :=
   match c with
+  | CSvcStore _ _ _ => empty_outcome
   | CReg tags ops dhcp cid _ (CPipe cf allow block sb par ss q ups up _) =>
       process (match_request allow) (match_request block)
               (fun h => mem_bytes h sb) (fun h => mem_bytes h par) (ss_lookup ss)
@@ -445,6 +464,7 @@ Definition model (c : case) : outcome :=
 
 Definition case_ok (c : case) : bool :=
   match c with
+  | CSvcStore tbl init calls => run_svc_store tbl init calls
   | CReg tags ops dhcp cid handed (CPipe cf _ _ _ _ _ q _ _ obs) =>
       snd (reg_request tags ops dhcp cid q) && outcome_eqb (model c) obs &&
       handed_eqb (reg_handed cf tags ops dhcp cid (q_addr q)) handed
